@@ -13,7 +13,6 @@ use chainsim::rt::{TxOpts, World};
 use gmsol_utils::order::OrderKind;
 use num_bigint::BigInt;
 use num_traits::{Signed, ToPrimitive, Zero};
-use gmsol_store::states::common::swap::HasSwapParams;
 use serde::{Deserialize, Serialize};
 use simcore::{Components, Obs, Rng, Scenario, Tier};
 use solana_program::pubkey::Pubkey;
@@ -28,6 +27,7 @@ pub struct Cfg {
     pub market: (usize, usize, usize),
     /// Per-token initial feed configuration.
     pub adj: Vec<u32>,
+    #[serde(with = "s128::vec")]
     pub factor: Vec<u128>,
     pub adjust: Vec<bool>,
     pub max_age: u64,
@@ -63,10 +63,22 @@ pub enum Step {
     Post { token: usize, rep: RelReport, idem: bool, to: FeedSel },
     /// Post a report whose bid/ask sit exactly k precision steps from the reference, where k is derived at execution
     /// time from the configured deviation (boundary of the band): `dk` is added to the boundary step count.
-    PostBand { token: usize, mid: i128, dk_bid: i32, dk_ask: i32, frac: u64 },
+    PostBand {
+        token: usize,
+        #[serde(with = "s128")]
+        mid: i128,
+        dk_bid: i32,
+        dk_ask: i32,
+        frac: u64,
+    },
     Clock { dslot: i64, dsec: i64 },
     SetAmount { which: u8, value: u64 },
-    SetFeedCfg { token: usize, adj: Option<u32>, factor: Option<u128> },
+    SetFeedCfg {
+        token: usize,
+        adj: Option<u32>,
+        #[serde(with = "s128::opt")]
+        factor: Option<u128>,
+    },
     ToggleAdjust { token: usize, enable: bool },
     ToggleToken { token: usize, enable: bool },
     SetProvider { token: usize, provider: u8 },
@@ -76,7 +88,14 @@ pub enum Step {
     /// The keeper executes pending action #idx (modulo the number of pending ones) — or, for `UpdateFees` /
     /// `UpdateAdl`, the market housekeeping instruction. `refresh`: mid prices (one per token) the keeper posts for the
     /// tokens of the action right before executing.
-    Run { kind: ExecKind, idx: usize, throw: bool, sub: Option<(usize, FeedSel)>, refresh: Option<Vec<i128>> },
+    Run {
+        kind: ExecKind,
+        idx: usize,
+        throw: bool,
+        sub: Option<(usize, FeedSel)>,
+        #[serde(with = "s128::optvec")]
+        refresh: Option<Vec<i128>>,
+    },
     Clear,
 }
 
